@@ -340,6 +340,14 @@ def classify(spec, m, objs, got, exp, err):
             kle = None
         if kle is not None and kle != se and sg <= kle:
             return "short-circuit-empty-domain"
+        # the same mechanism below a not_ / as the left side of an or_: the operand about the variable without values
+        # produces no result at all, its neighbour decides alone
+        try:
+            non = set(G.oracle(spec, m, objs, mode="nothing"))
+        except G.OracleError:
+            non = None
+        if non is not None and non != se and sg <= non:
+            return "short-circuit-empty-domain"
     if qi["exists_free"] and missing and not extra:
         return "exists-dedup"
     if _exists_leaves_variable_bound(spec):
@@ -429,6 +437,11 @@ def witnesses():
                                                  ["and", ["exists", "x", ["cmp", "==", ["attr", ["var", "y"], "a"], ["attr", ["var", "x"], "a"]]],
                                                   ["forall", "x", ["cmp", "==", ["attr", ["var", "y"], "a"], ["attr", ["var", "x"], "a"]]]]],
                                                 [["var", "y"]], [X, Y]),
+        "empty-nested-query-silences-disjunction": _w(["or", ["cmp", "==", ["attr", ["var", "x"], "a"], ["attr", ["var", "s"], "a"]],
+                                                         ["cmp", "==", ["attr", ["var", "x"], "b"], ["lit", 1]]],
+                                                        [["var", "x"]], [X],
+                                                        derived=[{"name": "s", "kind": "sub", "var": {"name": "w", "type": "P", "dom": [0, 1, 2], "kind": "list"},
+                                                                  "cond": ["cmp", "==", ["attr", ["var", "w"], "a"], ["lit", 5]]}]),
         "exists-result-without-its-variable": _w(["and", ["cmp", ">=", ["attr", ["var", "y"], "a"], ["lit", 0]],
                                                    ["exists", "x", ["or", ["cmp", "==", ["attr", ["var", "y"], "b"], ["lit", 1]],
                                                                     ["cmp", "==", ["attr", ["var", "x"], "a"], ["lit", 1]]]]],
